@@ -61,7 +61,7 @@ func runC09(c c09Case) Result {
 	if err != nil {
 		return bad("server", "harness:server", "%v", err)
 	}
-	limit := timeLimit{60 * time.Second} // >= 50x the measured prove time (0.35-1 s)
+	limit := timeLimit{180 * time.Second} // far above 50x the measured prove time (0.35-1 s), so that machine load cannot fail it
 	tags := []string{}
 	classes := map[string]bool{}
 	for i, r := range append(append([]genReq(nil), c.Requests...), c.Canary) {
